@@ -97,6 +97,16 @@ def _on_line(code, line):
     k.lines += 1
     t.lines += 1
     b = t.budget - 1
+    if k.sweep_thread_lines is not None and t.tid == 0 and t.lines == k.sweep_thread_lines:
+        # fractional sweep: the first actor is pre-empted after exactly that many of its own line events
+        k.sweep_thread_lines = None
+        t.hold_until = INF
+        k.deep_holds += 1
+        k.sweep_hit = (code.co_qualname, line)
+        t.budget = 0
+        t.last_pos = (code.co_qualname, line)
+        t.preempt()
+        return
     if k.sweep_at is not None and code in _strong_codes:
         n = k.sweep_count
         k.sweep_count = n + 1
@@ -303,6 +313,7 @@ class Kernel:
         self.deep_holds = 0
         self.sweep_at = None          # index of the strong-touch line event at which to force a switch
         self.sweep_count = 0
+        self.sweep_thread_lines = None  # pre-empt thread 0 after exactly this many of its line events
         self.sweep_hit = None
         self.import_waits = 0         # times a thread waited (through the baton) for a module import lock
         self.mean_budget = mean_budget
@@ -418,7 +429,7 @@ class Kernel:
         if self.stall_p and self.heap and self.heap[0][0] > self.now and \
                 self.stall_rng.random() < self.stall_p:
             return 'stall'
-        if (self.deep_hold_at or self.sweep_at is not None) and len(runnable) > 1:
+        if (self.deep_hold_at or self.sweep_at is not None or self.deep_holds) and len(runnable) > 1:
             free = [t for t in runnable if t.hold_until <= self.lines]
             if free:
                 runnable = free
